@@ -7,7 +7,7 @@
 //! ctxspec = `((P VX VY) ...)` (0..2 span instances: pool index of a span metadata + values of x, y);
 //! context k = the first k spans entered (k = 0..len), and the closure context number is k.
 //!
-//! filter ::= (lvl N) | (tgt (T N)*) | (env ID "dirs") | (fn HEX H) | (dyn HEX H CS) | (and F F) | (or F F)
+//! filter ::= (lvl N) | (tgt (T N)*) | (tgts "a=warn,a[{x}]=trace") | (env ID "dirs") | (fn HEX H) | (dyn HEX H CS) | (and F F) | (or F F)
 //!          | (not F) | (some F) | (none) | (box F) | (arc F) | (reload F)
 //!            N: 0 = OFF, 1..5 = ERROR..TRACE; T: target or `*` (default); H: `-` or N; CS: `-` or (HEXALWAYS HEXNEVER)
 //! layer  ::= (rec N) | (glob LEAF) | (filt L F) | (pair OUTER INNER) | (lsome L) | (lnone) | (vec L*) | (lbox L)
@@ -219,6 +219,11 @@ macro_rules! leaf {
                         t = t.with_target(d.arg(0).atom().to_string(), lf);
                     }
                 }
+                Some(Box::new(t) as $bx)
+            }
+            "tgts" => {
+                // parsed from a string: `Targets::from_str` also accepts `target[{field,..}]=level`
+                let t: Targets = s.arg(1).atom().parse().expect("Targets string parses");
                 Some(Box::new(t) as $bx)
             }
             "env" => {
